@@ -3,8 +3,8 @@
 ./check --setup >/dev/null 2>&1
 for id in "$@"; do
   s=$(date +%s)
-  out=$(./check $id --tier thorough 2>&1)
+  out=$(./check $id --tier thorough 2>&1); rc=$?
   e=$(( $(date +%s) - s ))
-  echo "$id ${e}s rc=$? $(echo "$out" | grep ' thorough:' | cut -c1-220)"
+  echo "$id ${e}s rc=$rc $(echo "$out" | grep ' thorough:' | cut -c1-220)"
   echo "$out" | grep "signature:\|VIOLATION\|MACHINERY" | sort -u | head -8
 done
